@@ -14,6 +14,8 @@ type TextCase struct {
 	Text   string
 	// TextNoAST, if set, is the variant of the text for -noast parsers (probe actions differ)
 	TextNoAST string
+	// AllowStderr: regular expression of diagnostics the generator may print for this text
+	AllowStderr string
 	// Valid: the text is a grammar in the documented syntax whose actions are valid Go (C08's domain)
 	Valid bool
 }
@@ -189,5 +191,32 @@ func CodeBlocks() []TextCase {
 		out = append(out, TextCase{ID: "CODE/pred/" + k, Family: "CODE", Text: hdrT + "S <- &{" + preds[k] + "} 'a'\n", Valid: true})
 		out = append(out, TextCase{ID: "CODE/state/" + k, Family: "CODE", Text: hdrT + "S <- !{ p.N++; _ = " + preds[k] + "} 'a'\n", Valid: true})
 	}
+	return out
+}
+
+
+// UnusedRules: accepted grammars with rules that are defined but not used (peg warns and still
+// generates): the generated file must be valid Go all the same, under every option set.
+func UnusedRules() []TextCase {
+	used := []string{"S <- A 'x' / B !.", "A <- <'a'+> { p.N++ }", "B <- 'b' (S / 'y')?"}
+	spare := []string{"U1 <- 'u'", "U2 <- 'v' U1? / 'w'", "U3 <- <'q'> { p.N-- } A", "U4 <- !'z' . U4?"}
+	var out []TextCase
+	add := func(id string, rules []string) {
+		out = append(out, TextCase{ID: "UNUSED/" + id, Family: "UNUSED", Text: hdrT + strings.Join(rules, "\n") + "\n", Valid: true,
+			AllowStderr: `^(warning: rule '\w+' defined but not used\n?)+$`})
+	}
+	// one unused rule at every position after the first rule
+	for si, sp := range []string{spare[0], spare[2], spare[3]} {
+		for pos := 1; pos <= len(used); pos++ {
+			rules := append(append(append([]string{}, used[:pos]...), sp), used[pos:]...)
+			add(fmt.Sprintf("one/%d/%d", si, pos), rules)
+		}
+	}
+	// two and three unused rules, interleaved
+	add("two/front", []string{used[0], spare[0], spare[1], used[1], used[2]})
+	add("two/spread", []string{used[0], spare[0], used[1], spare[1], used[2]})
+	add("two/back", []string{used[0], used[1], used[2], spare[0], spare[1]})
+	add("three", []string{used[0], spare[0], used[1], spare[1], used[2], spare[2]})
+	add("four", []string{used[0], spare[3], spare[0], used[1], spare[1], used[2], spare[2]})
 	return out
 }
